@@ -171,7 +171,7 @@ func (c *Check) gochannelRoles(id string) *GCRoles {
 			continue
 		}
 		reaches := false
-		for _, f := range WithAnon(cal) {
+		for _, f := range WithStarted(cal) {
 			for _, c2 := range CallsIn(f) {
 				if CalleeFn(c2.Common()) == r.Deliver {
 					reaches = true
@@ -199,8 +199,18 @@ func (c *Check) gochannelRoles(id string) *GCRoles {
 			}
 		}
 	}
-	// closures of Subscribe
-	for _, f := range r.Subscribe.AnonFuncs {
+	// goroutines of Subscribe: literals, or private named methods started with `go` at their only call site
+	started := append([]*ssa.Function{}, r.Subscribe.AnonFuncs...)
+	AllInstrs(r.Subscribe, func(in ssa.Instruction) {
+		if g, ok := in.(*ssa.Go); ok {
+			if cal := CalleeFn(&g.Call); cal != nil && cal.Pkg == r.Subscribe.Pkg && cal.Parent() == nil && len(cal.Blocks) > 0 {
+				if site := OnlySite(cal); site != nil && site == ssa.CallInstruction(g) {
+					started = append(started, cal)
+				}
+			}
+		}
+	})
+	for _, f := range started {
 		for _, cl := range CallsIn(f) {
 			if CalleeFn(cl.Common()) == r.SubClose {
 				r.Teardown = f
